@@ -86,6 +86,12 @@ int main(int argc, char** argv) {
     PSet p; p.th.assign(36, 0); p.de.assign(36, 0); p.th[i * 6 + j] = t; p.de[i * 6 + j] = de; p.name = fmt("single-large(%d,%d,%.3g,%.3g)", i, j, t, de); sets.push_back(p);
   }
   { PSet p; p.th.assign(36, 0); p.de.assign(36, 0); for (int i = 0; i < 6; i++) for (int j = i + 1; j < 6; j++) { p.th[i * 6 + j] = 1e-9 * (1 + i + 2 * j) * ((i + j) % 2 ? -1 : 1); p.de[i * 6 + j] = 0.3 * j; } p.name = "all-pairs-small"; sets.push_back(p); }
+  // exactly two mixed planes, every choice of the two (sparse patterns: 3+1-like layouts); and three planes sharing a level
+  if (!ar.reduced) { std::vector<std::pair<int, int>> PL; for (int i = 0; i < 6; i++) for (int j = i + 1; j < 6; j++) PL.push_back({i, j});
+    for (size_t a = 0; a < PL.size(); a++) for (size_t b = a + 1; b < PL.size(); b++) { if (!th && PL[b].second == 5 && PL[a].second == 5 && PL[a].first > 1) continue;
+      PSet p; p.th.assign(36, 0); p.de.assign(36, 0); p.th[PL[a].first * 6 + PL[a].second] = 0.7; p.de[PL[a].first * 6 + PL[a].second] = 0.4; p.th[PL[b].first * 6 + PL[b].second] = -1.1; p.de[PL[b].first * 6 + PL[b].second] = (a + b) % 2 ? 0.0 : 2.0;
+      p.name = fmt("two-planes(%d%d,%d%d)", PL[a].first, PL[a].second, PL[b].first, PL[b].second); sets.push_back(p); }
+    for (int l = 0; l < 6; l++) { PSet p; p.th.assign(36, 0); p.de.assign(36, 0); int cnt = 0; for (int m = 0; m < 6 && cnt < 3; m++) if (m != l) { int i = std::min(l, m), j = std::max(l, m); p.th[i * 6 + j] = 0.5 + 0.3 * cnt; cnt++; } p.name = fmt("three-planes-through-level-%d", l); sets.push_back(p); } }
   for (int w = 0; w < 3; w++) { PSet p; p.th.assign(36, 0); p.de.assign(36, 0); for (int i = 0; i < 6; i++) for (int j = i + 1; j < 6; j++) { p.th[i * 6 + j] = 0.3 + 0.41 * i + 0.17 * j + 0.9 * w; p.de[i * 6 + j] = (w == 0) ? 0.0 : -0.7 + 0.23 * i * j + 0.5 * w; } p.name = fmt("all-pairs-%d", w); sets.push_back(p); }
   if (ar.shard == 0) count("parameter_sets", (long long)sets.size());
   for (size_t si = 0; si < sets.size(); si++) {
@@ -95,7 +101,7 @@ int main(int argc, char** argv) {
     for (int i = 0; i < 6; i++) for (int j = i + 1; j < 6; j++) { par.SetMixingAngle(i, j, ps.th[i * 6 + j]); par.SetPhase(i, j, ps.de[i * 6 + j]); par2.SetMixingAngle(i, j, ps.th[((i + 1) % 5) * 6 + 5] * 0.5 + 0.2); par2.SetPhase(i, j, 0.1 * j); }
     for (int d = 2; d <= 6; d++) {
       const ref::Basis& B = ref::basis(d);
-      Alpha al = make_alpha(d, ar.reduced || (!th && d >= 5));
+      Alpha al = make_alpha(d, ar.reduced || (!th && d >= 5) || ps.name.compare(0, 4, "two-") == 0 || ps.name.compare(0, 6, "three-") == 0);
       auto Ug = par.GetTransformationMatrix(d); auto Wg = par2.GetTransformationMatrix(d);
       Mat U = gsl2mat(Ug.get()), Ud = ref::dagger(U), W = gsl2mat(Wg.get()), Wd = ref::dagger(W);
       count("evaluations");
